@@ -738,6 +738,65 @@ def _fold_named_conditions(fn: ast.AST) -> int:
     return count
 
 
+# --------------------------------------------------------------------------- N19: an assignment expression leading a test
+def _hoist_leading_walrus(fn: ast.AST) -> int:
+    """N19:  if (mid := getattr(m, "id", None)) == rid: …      ->      mid = getattr(m, "id", None)
+                                                                        if mid == rid: …
+    when the assignment expression is the first thing the test evaluates (the test itself, the left operand of its
+    comparison, or that of the first operand of its and/or); an `elif` is the `if` in its own else-block, so the binding
+    still happens only when the earlier tests failed.  `while` tests are left alone (they are evaluated again)."""
+    count = 0
+
+    def leading(t):
+        """(holder, field) of the NamedExpr that is evaluated first in `t`, or None"""
+        if isinstance(t, ast.NamedExpr):
+            return ("self", None)
+        if isinstance(t, ast.Compare) and isinstance(t.left, ast.NamedExpr):
+            return (t, "left")
+        if isinstance(t, ast.BoolOp) and t.values:
+            first = t.values[0]
+            if isinstance(first, ast.NamedExpr):
+                return (t, 0)
+            inner = leading(first)
+            if inner is not None and inner[0] != "self":
+                return inner
+        if isinstance(t, ast.UnaryOp) and isinstance(t.op, ast.Not):
+            if isinstance(t.operand, ast.NamedExpr):
+                return (t, "operand")
+            inner = leading(t.operand)
+            if inner is not None and inner[0] != "self":
+                return inner
+        return None
+
+    for node in ast.walk(fn):
+        for field in ("body", "orelse", "finalbody"):
+            lst = getattr(node, field, None)
+            if not (isinstance(lst, list) and lst and isinstance(lst[0], ast.stmt)):
+                continue
+            i = 0
+            while i < len(lst):
+                st = lst[i]
+                if isinstance(st, ast.If):
+                    ld = leading(st.test)
+                    if ld is not None:
+                        holder, where = ld
+                        ne = st.test if holder == "self" else (getattr(holder, where) if isinstance(where, str) else holder.values[where])
+                        if isinstance(ne.target, ast.Name):
+                            bind = ast.copy_location(ast.Assign(targets=[ast.Name(id=ne.target.id, ctx=ast.Store())], value=ne.value, type_comment=None), st)
+                            ref = ast.copy_location(ast.Name(id=ne.target.id, ctx=ast.Load()), ne)
+                            if holder == "self":
+                                st.test = ref
+                            elif isinstance(where, str):
+                                setattr(holder, where, ref)
+                            else:
+                                holder.values[where] = ref
+                            lst.insert(i, bind)
+                            count += 1
+                            i += 1
+                i += 1
+    return count
+
+
 # --------------------------------------------------------------------------- N16: a loop over a one-loop generator helper -> that loop
 def fuse_generator_loops(tree: ast.Module) -> int:
     """N16:  def selected(model, include):                    for key_g, value_g in self.__dict__.items():
@@ -975,6 +1034,7 @@ def normalize(tree: ast.Module) -> int:
     nz.visit(tree)
     nz.count += n18
     for fn_ in [x for x in ast.walk(tree) if isinstance(x, (ast.FunctionDef, ast.AsyncFunctionDef))]:
+        nz.count += _hoist_leading_walrus(fn_)
         nz.count += _fuse_filter_loops(fn_)
         nz.count += _fold_named_conditions(fn_)
     nz.count += _inline_function_aliases(tree)
